@@ -6,9 +6,10 @@
    [g_run g_init h] the plain registry (model/LookupSpec.v) after the same history
    A history is any list of: Identify / Register / Unregister / Ping / Disconnect per
    connection, the five admin calls with arbitrary (also missing / invalid / wildcard)
-   arguments, and Advance d (time passing).  [op_det] excludes only the tombstone request
-   whose topic argument is the wildcard, whose effect in the Go code depends on map
-   iteration order (reported as an observation; not an nsqadmin request). *)
+   arguments, and Advance d (time passing).  Every operation is covered: since the repair
+   commit 109669a (F14) /topic/delete and /topic/tombstone refuse an invalid topic name, so
+   the wildcard, whose effect depended on Go's map iteration order, is no longer reachable
+   through the admin handlers. *)
 From Coq Require Import List ZArith NArith Bool.
 From NSQV Require Import gen.Consts gen.LookupdTables model.Judge model.Names model.Lookupd model.LookupSpec
   proofs.LookupdBase proofs.LookupdRefine proofs.LookupdShape proofs.LookupdQueries proofs.LookupdCorollaries
@@ -18,7 +19,7 @@ Open Scope Z_scope.
 
 (* ---- refinement: the code's data structure implements the plain registry *)
 Theorem C14_refinement_step : forall s o,
-  wf s -> op_det o = true -> req (abs (fst (step s o))) (g_step (abs s) o).
+  wf s -> req (abs (fst (step s o))) (g_step (abs s) o).
 Proof. exact refine_step. Qed.
 Print Assumptions C14_refinement_step.
 
@@ -26,24 +27,23 @@ Theorem C14_invariant : wf init /\ forall s o, wf s -> wf (fst (step s o)).
 Proof. exact (conj wf_init wf_step). Qed.
 Print Assumptions C14_invariant.
 
-Theorem C14_refinement_history : forall h,
-  forallb op_det h = true -> req (abs (run init h)) (g_run g_init h).
+Theorem C14_refinement_history : forall h, req (abs (run init h)) (g_run g_init h).
 Proof. exact refine_history. Qed.
 Print Assumptions C14_refinement_history.
 
 (* ---- equal answers, for every history *)
-Theorem C14_topics : forall h, forallb op_det h = true -> forall t,
+Theorem C14_topics : forall h, forall t,
   In t (q_topics (run init h)) <-> topic_listed (g_run g_init h) t = true.
 Proof. exact history_topics. Qed.
 Print Assumptions C14_topics.
 
-Theorem C14_channels : forall h, forallb op_det h = true -> forall t c,
+Theorem C14_channels : forall h, forall t c,
   is_star t = false ->
   (In c (q_channels (run init h) t) <-> lookup_channel (g_run g_init h) t c = true).
 Proof. exact history_channels. Qed.
 Print Assumptions C14_channels.
 
-Theorem C14_lookup_found : forall h, forallb op_det h = true -> forall inactive lifetime t,
+Theorem C14_lookup_found : forall h, forall inactive lifetime t,
   is_star t = false ->
   (q_lookup inactive lifetime (run init h) t = None <-> lookup_found (g_run g_init h) t = false).
 Proof. exact history_lookup_found. Qed.
@@ -54,19 +54,19 @@ Theorem C14_lookup_channels : forall s inactive lifetime t chs ps,
 Proof. exact q_lookup_channels. Qed.
 Print Assumptions C14_lookup_channels.
 
-Theorem C14_lookup_producers : forall h, forallb op_det h = true -> forall inactive lifetime t p,
+Theorem C14_lookup_producers : forall h, forall inactive lifetime t p,
   is_star t = false ->
   (In p (lookup_producers inactive lifetime (run init h) t) <->
    lookup_found (g_run g_init h) t = true /\ lookup_producer inactive lifetime (g_run g_init h) t p = true).
 Proof. exact history_lookup_producers. Qed.
 Print Assumptions C14_lookup_producers.
 
-Theorem C14_nodes : forall h, forallb op_det h = true -> forall inactive lifetime p,
+Theorem C14_nodes : forall h, forall inactive lifetime p,
   In p (map fst (q_nodes inactive lifetime (run init h))) <-> node_listed inactive (g_run g_init h) p = true.
 Proof. exact history_nodes. Qed.
 Print Assumptions C14_nodes.
 
-Theorem C14_node_topics : forall h, forallb op_det h = true -> forall inactive lifetime p t b,
+Theorem C14_node_topics : forall h, forall inactive lifetime p t b,
   In p (map fst (q_nodes inactive lifetime (run init h))) ->
   (In (t, b) (node_topics inactive lifetime (run init h) p) <->
    node_topic (g_run g_init h) p t = true /\ b = node_tomb lifetime (g_run g_init h) p t).
@@ -74,12 +74,12 @@ Proof. exact history_node_topics. Qed.
 Print Assumptions C14_node_topics.
 
 (* no answer lists anything twice *)
-Theorem C14_no_duplicates : forall h, forallb op_det h = true ->
+Theorem C14_no_duplicates : forall h,
   NoDup (q_topics (run init h)) /\
   (forall t, is_star t = false -> NoDup (q_channels (run init h) t)) /\
   (forall i l t, is_star t = false -> NoDup (lookup_producers i l (run init h) t)).
 Proof.
-  exact (fun h H => conj (history_topics_nodup h) (conj (history_channels_nodup h) (history_lookup_producers_nodup h))).
+  exact (fun h => conj (history_topics_nodup h) (conj (history_channels_nodup h) (history_lookup_producers_nodup h))).
 Qed.
 Print Assumptions C14_no_duplicates.
 
@@ -127,14 +127,14 @@ Proof. exact tombstone_keeps_registrations. Qed.
 Print Assumptions C14_tombstone_keeps_registrations.
 
 Theorem C14_tombstone_hides : forall r t c node q inactive lifetime,
-  registered r q t = true -> g_node_matches r node q = true -> 0 < lifetime ->
+  is_valid_name t = true -> registered r q t = true -> g_node_matches r node q = true -> 0 < lifetime ->
   lookup_producer inactive lifetime (g_tombstone r (QArgs (Some t) c (Some node))) t q = false.
 Proof. exact tombstone_hides. Qed.
 Print Assumptions C14_tombstone_hides.
 
-(* also for the wildcard topic (outside [op_det]): whatever registrations Go's map order
-   picks, registrations are untouched and a changed mark belongs to a producer registered
-   for that topic whose node is the named one *)
+(* on the model itself, for every topic argument (invalid ones, the wildcard included, are
+   refused and change nothing): registrations are untouched and a changed mark belongs to a
+   producer registered for that topic whose node is the named one *)
 Theorem C14_tombstone_any_request : forall s t c node u p,
   let s' := fst (h_tombstone s (QArgs (Some t) c (Some node))) in
   (forall k q, a_prod (db s') k q = a_prod (db s) k q) /\
@@ -169,6 +169,26 @@ Theorem C14_ephemeral_topic : forall r p t,
 Proof. exact ephemeral_topic_leaves_with_last. Qed.
 Print Assumptions C14_ephemeral_topic.
 
+(* ---- what the key sets are NOT (findings candidates, replayed on the real daemon by the
+   fixed history "fixed-stale-keys"): the obvious listing rule "listed iff a connected
+   producer registered it or an admin created it" fails (keys persist: documented upstream
+   design), and "#ephemeral keys are removed when empty" fails when the last producer
+   disconnects, or UNREGISTERs the topic while an #ephemeral channel key of it exists.
+   Full statements: obvious_channel_listing, obvious_topic_listing,
+   ephemeral_removed_when_empty in proofs/LookupdCorollaries.v. *)
+Theorem C14_obvious_listing_refuted : ~ obvious_channel_listing /\ ~ obvious_topic_listing.
+Proof. exact (conj obvious_channel_listing_refuted obvious_topic_listing_refuted). Qed.
+Print Assumptions C14_obvious_listing_refuted.
+
+Theorem C14_ephemeral_removed_when_empty_refuted :
+  ~ ephemeral_removed_when_empty /\
+  g_key (g_run g_init stale_ephemeral_disconnect) (topic_key w_eph) = true /\
+  g_key (g_run g_init stale_ephemeral_disconnect) (chan_key w_eph w_ceph) = true /\
+  g_key (g_run g_init stale_ephemeral_channel) (chan_key w_t w_ceph) = true /\
+  (forall p, g_prod (g_run g_init stale_ephemeral_channel) (chan_key w_t w_ceph) p = false).
+Proof. exact ephemeral_removed_when_empty_refuted. Qed.
+Print Assumptions C14_ephemeral_removed_when_empty_refuted.
+
 (* the thresholds the daemon runs with by default are the generated ones *)
 Example C14_defaults : lookupd_opt_InactiveProducerTimeout = 300000000000 /\ lookupd_opt_TombstoneLifetime = 45000000000.
 Proof. split; reflexivity. Qed.
@@ -190,14 +210,17 @@ Definition hist3 : list op := hist ++ [Advance 1000000000].
 Definition hist4 : list op := hist ++ [Advance 300000000000; Ping 1%N].
 Definition hist5 : list op :=
   [Identify 0%N info1; Identify 1%N info2; Register 0%N eph []; Register 1%N eph []; Unregister 0%N eph []; Disconnect 1%N].
+Definition star_q : query := QArgs (Some star) None (Some node1).
 Definition hist6 : list op := [Identify 0%N info1; Identify 1%N info2; Register 0%N eph []; Register 1%N eph []; Unregister 0%N eph []; Unregister 1%N eph []].
 
 Example C14_witness :
-  forallb op_det hist2 = true /\
   lookup_producers 300000000000 45000000000 (run init hist) t1 = [1%N] /\        (* tombstoned, re-REGISTER did not help *)
   lookup_producers 300000000000 45000000000 (run init hist2) t1 = [1%N; 0%N] /\  (* UNREGISTER + REGISTER cleared it *)
   lookup_producers 300000000000 45000000000 (run init hist3) t1 = [0%N; 1%N] /\  (* the tombstone lapsed at 45 s *)
   lookup_producers 300000000000 45000000000 (run init hist4) t1 = [1%N] /\       (* 0 not pinged for > 300 s *)
   q_topics (run init hist5) = [eph] /\                                           (* a disconnect leaves the ephemeral key *)
-  q_topics (run init hist6) = [].                                                (* the last UNREGISTER removes it *)
+  q_topics (run init hist6) = [] /\                                             (* the last UNREGISTER removes it *)
+  (* F14 witnesses: the wildcard as topic of delete / tombstone is refused and changes nothing *)
+  step (run init hist) (HDeleteTopic star_q) = (run init hist, OStatus 400) /\
+  step (run init hist) (HTombstone star_q) = (run init hist, OStatus 400).
 Proof. vm_compute. repeat split; reflexivity. Qed.
